@@ -30,7 +30,7 @@ RULE = ('source texts: (a) sentences derived at random from the grammar prolog.g
         '(d) quoted atoms that span lines, whose lines start with what means something outside an atom (% /* // # :- . , brackets, '
         'quotes, clause text) and end with every kind of line end, comments that contain quotes, and the single edits placed directly '
         'before / after a quoted atom, on its quotes, and at the line boundaries inside it. '
-        '(e) SIZE CLASSES: texts of 8-17 kB (thorough: up to 40 kB) made of hundreds of small clauses - tables of ground facts with atomic '
+        '(e) SIZE CLASSES: texts of 8-10 kB (thorough: up to 40 kB) made of hundreds of small clauses - tables of ground facts with atomic '
         'arguments, such tables with a few other clauses, clauses printed from ASTs with many clauses per predicate - and single-edit '
         'corruptions of them (one name becomes a reserved word, one token becomes another, one character changes, ...), judged by the '
         'whole-pipeline model; (f) SEQUENCES of 2-3 source texts given to one run of the command line (a sentence cut into pieces '
@@ -507,13 +507,13 @@ def g_large(rng, style, target):
 
 def gen_large(rng, tier, i):
     """one valid large text and single-edit corruptions of it"""
-    sizes = [8200, 8700, 10000, 12500, 16400] if tier == 'quick' else [8200, 9000, 12000, 16400, 20000, 25000, 32800, 40000]
+    sizes = [8200, 8500, 9000, 10000] if tier == 'quick' else [8200, 9000, 12000, 16400, 20000, 25000, 32800, 40000]
     style = ['facts', 'clauses', 'facts', 'facts+'][i % 4]
     target = rng.choice(sizes if style != 'clauses' else sizes[:3 if tier == 'quick' else 5])
     text, clauses = g_large(rng, style, target)
     out = [{'src': text, 'kind': 'large-' + style, 'base_clauses': len(clauses), 'large': True}]
-    # always one name -> reserved word, then two edits drawn from the kinds for large texts
-    for c in corruptions(rng, clauses, 1, ['keyword']) + corruptions(rng, clauses, 2, _LARGE_KINDS):
+    # always one name -> reserved word, then 1 (thorough: 3) edits drawn from the kinds for large texts
+    for c in corruptions(rng, clauses, 1, ['keyword']) + corruptions(rng, clauses, 1 if tier == 'quick' else 3, _LARGE_KINDS):
         c['kind'] = 'large-' + style + ':' + c['kind']
         c['large'] = True
         out.append(c)
